@@ -17,9 +17,14 @@ pub uninterp spec fn hv_bytes(h: &HeaderValue) -> Seq<u8>;
 pub uninterp spec fn status_u16(s: StatusCode) -> u16;
 pub uninterp spec fn method_bytes(m: &Method) -> Seq<u8>;
 
-pub open spec fn field_vals<T>(h: &HeaderMap<T>, name: Seq<u8>) -> Seq<T> {
-    hm_view(h).filter(|e: (Seq<u8>, T)| e.0 == name).map_values(|e: (Seq<u8>, T)| e.1)
-}
+pub open spec fn name_is<T>(k: Seq<u8>) -> spec_fn((Seq<u8>, T)) -> bool { |e: (Seq<u8>, T)| e.0 == k }
+pub open spec fn name_is_not<T>(k: Seq<u8>) -> spec_fn((Seq<u8>, T)) -> bool { |e: (Seq<u8>, T)| e.0 != k }
+pub open spec fn snd<T>() -> spec_fn((Seq<u8>, T)) -> T { |e: (Seq<u8>, T)| e.1 }
+/// the log minus every entry named k
+pub open spec fn without<T>(s: Seq<(Seq<u8>, T)>, k: Seq<u8>) -> Seq<(Seq<u8>, T)> { s.filter(name_is_not(k)) }
+/// values of the entries named `name`, in order
+pub open spec fn field_of<T>(s: Seq<(Seq<u8>, T)>, name: Seq<u8>) -> Seq<T> { s.filter(name_is(name)).map_values(snd()) }
+pub open spec fn field_vals<T>(h: &HeaderMap<T>, name: Seq<u8>) -> Seq<T> { field_of(hm_view(h), name) }
 /// HeaderValue::to_str: Ok iff every byte is visible ASCII (0x20..=0x7E) or TAB
 pub open spec fn visible_ascii(b: Seq<u8>) -> bool { forall|i: int| 0 <= i < b.len() ==> (32 <= #[trigger] b[i] < 127 || b[i] == 9) }
 pub uninterp spec fn ascii_chars(b: Seq<u8>) -> Seq<char>;
@@ -51,7 +56,7 @@ pub assume_specification[ <http::Error as From<http::header::InvalidHeaderValue>
 pub assume_specification[ <Error as From<http::Error>>::from ](e: http::Error) -> (r: Error);
 
 // ---- generic std idioms over header lists (R1 wrappers; bodies are the repo's adapter chains with the closure abstracted)
-pub uninterp spec fn split_on(s: Seq<char>, sep: char) -> Seq<Seq<char>>;
+//@@ include str_prelude
 pub uninterp spec fn ascii_lower(s: Seq<char>) -> Seq<char>;
 /// trimmed tokens of a separator-delimited list
 pub open spec fn tokens(s: Seq<char>, sep: char) -> Seq<Seq<char>> { split_on(s, sep).map_values(|t: Seq<char>| trim_spec(t)) }
